@@ -94,6 +94,7 @@ func (r *validationResponseHandler) HandleValidationResponse(
 	if err == nil && req.Method == http.MethodGet && resp.StatusCode == http.StatusNotModified {
 		// RFC 9111 §4.3.3 Handling Validation Responses (304 Not Modified)
 		// RFC 9111 §4.3.4 Freshening Stored Responses upon Validation
+		closeBody(resp) // the stored response is returned instead of this one
 		updateStoredHeaders(ctx.Stored.Data, resp)
 		if r.rs != nil {
 			// Write the freshened response back, so that later requests are served
@@ -120,6 +121,7 @@ func (r *validationResponseHandler) HandleValidationResponse(
 		if r.canStaleOnError(ctx, storedCC) {
 			// RFC 9111 §4.2.4 Serving Stale Responses
 			// RFC 9111 §4.3.3 Handling Validation Responses (5xx errors)
+			closeBody(resp) // the origin's error response is dropped: release its connection
 			SetAgeHeader(ctx.Stored.Data, r.clock, ctx.Freshness.Age)
 			CacheStatusStale.ApplyTo(ctx.Stored.Data.Header)
 			r.l.LogCacheStaleIfError(req, ctx.URLKey, ctx.ToMisc(storedCC))
@@ -148,4 +150,12 @@ func (r *validationResponseHandler) HandleValidationResponse(
 		r.l.LogCacheBypass("Bypass; serving upstream response", req, ctx.URLKey, ctx.ToMisc(ccResp))
 	}
 	return resp, nil
+}
+
+// closeBody closes the body of a response that is not handed on to the caller (an
+// unclosed body keeps its connection from being reused or released).
+func closeBody(resp *http.Response) {
+	if resp != nil && resp.Body != nil {
+		_ = resp.Body.Close()
+	}
 }
